@@ -5,6 +5,7 @@ Property theorems only; helper lemmas live in Proof/Kernels.lean.
 import SuccinctlyVerif.Proof.Kernels
 import SuccinctlyVerif.Proof.KernelsBP
 import SuccinctlyVerif.Proof.KernelsBlock
+import SuccinctlyVerif.Proof.KernelsSelect
 namespace SV.Props.C02
 open SV
 
@@ -78,5 +79,16 @@ example : ∃ block : List (BitVec 64), block.length = 8 ∧ blockPopcountAvx2 b
     ∧ blockPopcountPortable block = 64 * 8 - 3 :=
   ⟨[BitVec.allOnes 64, BitVec.allOnes 64, 0x7FFF_FFFF_FFFF_FFFE#64, BitVec.allOnes 64,
     BitVec.allOnes 64, BitVec.allOnes 64, 0xFFFF_FFEF_FFFF_FFFF#64, BitVec.allOnes 64], by decide +kernel⟩
+
+/-- `select_in_word_broadword` (SWAR byte counts translated from the source, byte-finding loop,
+`select_in_byte` over the dumped table) returns the position of the `k`-th set bit, 64 if there
+are at most `k` set bits — for every word and every `k`. -/
+theorem select_broadword_eq (x : BitVec 64) (k : Nat) : selectBroadword x k = selectInWordSpec x k :=
+  Kernels.selectBroadword_eq x k
+
+example : selectBroadword 0x8000_0000_00F0_F0F0#64 12 = 63
+    ∧ selectBroadword 0x8000_0000_00F0_F0F0#64 7 = 15
+    ∧ selectBroadword 0x8000_0000_00F0_F0F0#64 13 = 64 := by
+  decide +kernel
 
 end SV.Props.C02
